@@ -193,6 +193,11 @@ class Harness(object):
         h["bitcoin::Sequence::to_relative_lock_time"] = \
             lambda m_, a, c: some(("rel", a[0])) if (a[0] & (1 << 31)) == 0 else NONE
         h["bitcoin::relative::LockTime::is_implied_by"] = self._implied
+        # (rust-bitcoin's relative::LockTime keeps the unit flag and 16 bits of value only)
+        h["bitcoin::relative::LockTime::to_sequence"] = lambda m_, a, c: (a[0][1] if isinstance(a[0], tuple) else a[0]) & 0x0040ffff
+        h["bitcoin::relative::LockTime::to_consensus_u32"] = h["bitcoin::relative::LockTime::to_sequence"]
+        h["bitcoin::Sequence::is_relative_lock_time"] = lambda m_, a, c: (a[0] & (1 << 31)) == 0
+        h["bitcoin::Sequence::to_consensus_u32"] = lambda m_, a, c: a[0]
         self.to_pubkeyhash = [p for p in F.fns if p.endswith("BitcoinKey::to_pubkeyhash")]
         for p in self.to_pubkeyhash:
             h[p] = lambda m_, a, c: ("hash", "HASH160", a[0].fields["0"])
